@@ -652,21 +652,25 @@ def c09_cases(check, tier):
         cases.append({"id": cid, "g": c["g"], "roots": roots, "judge": judge, "narrow": narrow, "src": "enum"})
     check.cov["enumerated_cases"] = len(enum)
     if tier == "thorough":
-        cfg = write_cfg("MC_Types_sim.cfg", "Emit", 5)
-        res = common.tlc("MC_Types", cfg, workers=8, timeout=3000, simulate="num=60000", depth=7,
-                         seed_=common.seed())
-        check.add_tlc("MC_Types(simulate<=5)", res)
-        seen = set()
+        # every 4-node graph is generated; a seeded residue class of them emits cases
+        mod = int(os.environ.get("TYPES_CMOD", "400"))
+        cfg = write_cfg("MC_Types_enum4.cfg", "Emit", 4, mod=mod, rem=common.seed() % mod)
+        res = common.tlc("MC_Types", cfg, workers=8, timeout=20000)
+        if not res.ok:
+            raise common.ToolError("MC_Types (4 nodes) failed: " + res.out[-800:])
+        check.add_tlc("MC_Types(enum<=4, 1/%d of the 4-node graphs)" % mod, res)
+        seen = {json.dumps([c["g"], c["roots"]], sort_keys=True) for c in enum}
+        extra = 0
         for c in prints_of(res, CASE_PREFIX):
             key = json.dumps([c["g"], c["roots"]], sort_keys=True)
-            if key in seen or len(c["g"]["types"]) <= 4:
+            if key in seen:
                 continue
             seen.add(key)
-            n = len(c["roots"])
-            judge = [[i, j] for i in range(1, n + 1) for j in range(1, n + 1) if i != j] if n == 2 else []
+            extra += 1
+            judge = [[1, 2], [2, 1]] if len(c["roots"]) == 2 else []
             cases.append({"id": len(cases) + 1, "g": c["g"], "roots": c["roots"], "judge": judge,
-                          "narrow": [[i, j, "inter", "compl"] for i, j in judge], "src": "sim"})
-        check.cov["simulated_cases"] = len(seen)
+                          "narrow": [[i, j, "inter", "compl"] for i, j in judge], "src": "enum4"})
+        check.cov["enumerated_cases_4_nodes"] = extra
     # (b) seeded sample of larger shapes
     n = int(os.environ.get("TYPES_SAMPLE", "1200" if tier == "quick" else "20000"))
     for g, roots in sample_triples(n, common.seed()):
@@ -945,8 +949,18 @@ def render_vcase(vc):
     # the parameter type holds the value's static type S, the pattern type and a marker, so neither
     # acceptance nor rejection can be decided at compile time: the test runs
     broad = "(%s | 't | Zq)" % st if st != ty else "(%s | Zq)" % st
+    narrow = "(%s | Zq)" % st
+    variants = []
     for form, pat in forms:
-        head = "\n".join(aliases) + "\nf = #%s { | %s => Ok | No }" % (broad, pat)
+        if form == "partial":
+            # known finding acc:partial-broad (a partial PATTERN emits no runtime test for a value whose
+            # static type has a partial variant): the partial pattern is also run against the
+            # parameter type without 't so that the pattern itself stays checked
+            variants += [("partial", pat, narrow), ("partial-broad", pat, broad)]
+        else:
+            variants.append((form, pat, broad))
+    for form, pat, param in variants:
+        head = "\n".join(aliases) + "\nf = #%s { | %s => Ok | No }" % (param, pat)
         out.append((form, head + "\n" + val + " f", head + "\n#{ " + val + " f }"))
     # a receive source's parameter type: the message W[v] is offered to `#W['t]`; if the mailbox
     # filter (function_param_compatibility) refuses it the select times out and the message is
